@@ -121,6 +121,8 @@ def cauchy (i : CauchyIn α) : Vec α × Vec α :=
   if order.isEmpty then (i.x, c0) else
   let s := order.foldl (cauchyStep i t f2org) s0
   let dtm := if s.dtm < 0 then 0 else s.dtm
+  -- once every moving variable is fixed (`d = 0`) there is no final step
+  let dtm := if s.d.all (fun a => feq a 0) then 0 else dtm
   let tOld := s.tOld + dtm
   (clip (vadd s.xcp (smul tOld s.d)) i.lb i.ub, vadd s.c (smul dtm s.p))
 
